@@ -405,6 +405,7 @@ class Sim:
             os.makedirs(os.path.join(self.root, d))
         self.tmp = os.path.join(self.root, "tmp")
         self.known = []
+        self.stray = set()
 
     # ---- helpers ---------------------------------------------------------------------------------
     def rel(self, p):
@@ -428,6 +429,22 @@ class Sim:
             except OSError:
                 out.append((name, -1))
         return out
+
+    def adopt(self, name, rec):
+        """Ownership of a temp file that appeared: the wrapper being called, else (a child wrote it while time
+        passed) the wrapper owning a file whose name it extends, e.g. MAFFT's <input>.tree."""
+        path = os.path.join(self.tmp, name)
+        if any(path in r.files for r in self.recs):
+            return
+        if rec is None:
+            for r in self.recs:
+                if any(path.startswith(f) for f in r.files):
+                    rec = r
+                    break
+        if rec is not None:
+            rec.files.add(path)
+        else:
+            self.stray.add(path)
 
     def snapshot(self, rec):
         app = rec.app
@@ -462,6 +479,14 @@ class Sim:
                 if missing:
                     self.fail("resource:live-wrapper-lost-files", op=after_op, kind=rec.kind, state=rec.state,
                               files=[os.path.splitext(f)[1] for f in missing])
+        owned_live = set()
+        for rec in self.recs:
+            if rec.app is not None and not rec.ended:
+                owned_live |= rec.files
+        orphans = sorted(n for n in os.listdir(self.tmp) if os.path.join(self.tmp, n) not in owned_live)
+        if orphans:
+            self.fail("resource:temp-files-left", op=after_op, kind="?", how="no live wrapper owns them", count=len(orphans),
+                      files=[os.path.splitext(f)[1] for f in orphans])
         # tool reports: the external program must have received what the model says was configured
         for rec in self.recs:
             for p in rec.procs:
@@ -597,8 +622,11 @@ class Sim:
         self.res.stats[f"op:{name}"] += 1
         if name == "advance":
             before = [(r, r.exit_at is not None and r.state == RUNNING and self.world.now < r.exit_at) for r in self.recs]
+            listing0 = set(os.listdir(self.tmp))
             self.world.advance(op["dt"])
             self.settle()
+            for n in set(os.listdir(self.tmp)) - listing0:
+                self.adopt(n, None)
             for r, pending in before:
                 if pending and self.world.now >= r.exit_at:
                     self.res.stats["probe:exit-between-calls"] += 1
@@ -625,10 +653,14 @@ class Sim:
             self.res.stats["probe:two-wrappers-interleaved"] += 1
         pre = rec.state
         self.world.current = rec
+        listing0 = set(os.listdir(self.tmp))
         try:
             outcome = self.dispatch(rec, op)
         finally:
             self.world.current = None
+            # files that appear during a call on this wrapper belong to it (whenever the code chooses to create them)
+            for n in set(os.listdir(self.tmp)) - listing0:
+                self.adopt(n, rec)
         self.res.features.add((rec.kind, name, pre, outcome))
         self.log.add({"i": self.step, "w": w, "op": name, "pre": pre, "out": outcome, "post": rec.state,
                       "now": round(self.world.now - sw.EPOCH, 3), "tmp": len(os.listdir(self.tmp))})
@@ -1137,8 +1169,12 @@ class Sim:
                     if since_start > max(to, now0 - rec.started_at) + 2 * wi + 1e-9:
                         self.fail("liveness:timeout-too-late", kind=rec.kind, timeout=to, after=round(since_start, 4), wi=wi)
             else:
-                if abs(elapsed - to) > 1e-9:
-                    self.fail("join:timeout-wrong-duration", kind=rec.kind, timeout=to, elapsed=round(elapsed, 4))
+                # never early; how late is not stated, so the bound is generous (a waiting strategy other than one
+                # blocking communicate() would still pass)
+                if elapsed < to - 1e-9:
+                    self.fail("join:timeout-too-early", kind=rec.kind, timeout=to, elapsed=round(elapsed, 4))
+                if elapsed > to + max(1.0, 0.1 * to):
+                    self.fail("liveness:timeout-too-late", kind=rec.kind, timeout=to, elapsed=round(elapsed, 4))
             return "timeout"
         if not can_finish:
             if st == "ok":
@@ -1154,8 +1190,10 @@ class Sim:
                 self.fail("join:returned-before-exit", kind=rec.kind)
         else:
             exp_now = max(now0, rec.exit_at)
-            if abs(world.now - exp_now) > 1e-9:
-                self.fail("join:wrong-return-time", kind=rec.kind, expected=round(exp_now - sw.EPOCH, 3), got=round(world.now - sw.EPOCH, 3))
+            if world.now < exp_now - 1e-9:
+                self.fail("join:returned-before-exit", kind=rec.kind, expected=round(exp_now - sw.EPOCH, 3), got=round(world.now - sw.EPOCH, 3))
+            if world.now > exp_now + 1.0:
+                self.fail("liveness:join-too-late", kind=rec.kind, expected=round(exp_now - sw.EPOCH, 3), got=round(world.now - sw.EPOCH, 3))
         why = self.predicted_failure(rec)
         if why is not None:
             rec.state = CANCELLED
